@@ -183,6 +183,22 @@ theorem C19_holds : C19_full := by
     (captures_do_not_touch_sink ops script).1,
     fun hb => (no_panic ops script hb).1⟩
 
+/-- **`Output::null()`** (`Expression::eval`): evaluating on the null output ends exactly like
+    evaluating the same operations into a `String` under a discard — a write can never fail there,
+    so no `WriteFailure` can originate from it. -/
+theorem null_output_same_as_string (ops : List Op) :
+    renderNull ops = (run ops (⟨⟨([] : Bytes), [none]⟩, []⟩ : St Bytes)).2 := by
+  obtain ⟨cs, _, _, h⟩ := run_sim ops (⟨⟨(), [none]⟩, []⟩ : St Unit) ⟨⟨[], [none]⟩, []⟩ rfl rfl
+  obtain ⟨cs', _, _, h'⟩ := run_sim ops (⟨⟨([] : Bytes), [none]⟩, []⟩ : St Bytes) ⟨⟨[], [none]⟩, []⟩ rfl rfl
+  simp only [feed_null, feed_string] at h h'
+  rcases h with ⟨_, h⟩ | ⟨hf, _⟩
+  · rcases h' with ⟨_, h'⟩ | ⟨hf', _⟩
+    · simp only [renderNull]; rw [h, h']
+    · cases hf'
+  · cases hf
+
+example : renderNull [.write (.str [1]), .endCapture, .write (.str [2])] = .ok (.ok ()) := by rfl
+
 /-- **Structured renders are operation sequences.**  A render in which later output depends on
     captured values (set/filter blocks, macro results, `super()`) and nested evaluations wrap
     their errors on the way out, evaluated big-step (`exec`), is exactly the flat render of
